@@ -103,6 +103,22 @@ def check(run):
             p = rnd.choice(pool if rnd.random() < 0.7 else [b, b.lower(), b.upper()])
             pre = rnd.choice(["vers:%s/" % sc] * 6 + ["VERS:%s/" % sc, "vers:%s/" % sc.upper(), "Vers:%s/" % sc.capitalize()])
             runs.append({"tag": "wiring", "argv": [codes(x) for x in ["vers", "contains", pre + rnd.choice(["<", "<=", ">", ">=", "=", "!=", ""]) + b, p]]})
+    # arguments in the wrong role: a text that is a valid version but not a valid range as the range of `contains`
+    # (unclosed brackets, operator fragments around a version), with a valid version second - and the valid pair swapped
+    cand = {e: list(dict.fromkeys(rnd.sample(acc[e], min(len(acc[e]), 60)) +
+                                  [a + v + b for v in rnd.sample(acc[e], min(len(acc[e]), 12))
+                                   for a, b in (("[", ""), ("(", ""), ("", "]"), ("", ")"), ("[", ",2.0"), ("", " >"), ("> =", ""), ("", ","))])) for e in ECOS}
+    jp, ep = run.path("role.jobs"), run.path("role.ev")
+    vlib.write_ndjson(jp, [{"k": "accept", "eco": e, "texts": cand[e]} for e in ECOS]); vlib.run_harness(run, exe, jp, ep)
+    nrole = 0
+    for ev in vlib.read_ndjson(ep):
+        e = ev["eco"]
+        vnotr = [t for t, okv, okr in zip(ev["texts"], ev["ok"], ev["okr"]) if okv and not okr]
+        for x in vnotr[:12 if quick else 60]:
+            runs.append({"tag": "wiring", "argv": [codes(a) for a in [e, "contains", x, rnd.choice(acc[e])]]}); nrole += 1
+        for _ in range(4 if quick else 20):
+            runs.append({"tag": "wiring", "argv": [codes(a) for a in [e, "contains", rnd.choice(acc[e]), rnd.choice(rtexts[e])]]})
+    run.extra["wrong_role_runs"] = nrole
     rnd.shuffle(runs)
     nsh = 8
     shards = [runs[i::nsh] for i in range(nsh)]
